@@ -364,6 +364,30 @@ def rewrite_body(S, b0, b1, opts, log):
                 continue
         i += 1
 
+    # ------------- R4: contract on a closure (header replaced, body kept verbatim in braces) ---
+    for anchor, newhead in opts.get("closures", []):
+        atoks = [t.text for t in lex(anchor)]
+        hits = [k for k in range(b0, b1 - len(atoks)) if [t.text for t in toks[k:k + len(atoks)]] == atoks]
+        if len(hits) != 1:
+            raise ExtractError(f"lost anchor: closure header `{anchor}` matches {len(hits)} times")
+        k = hits[0]
+        body_start = k + len(atoks)
+        # the closure body extends to the closing delimiter of the enclosing call
+        d, z = 0, body_start
+        while z <= b1:
+            u = toks[z]
+            if u.kind == "punct" and u.text in OPEN:
+                d += 1
+            elif u.kind == "punct" and u.text in CLOSE:
+                if d == 0:
+                    break
+                d -= 1
+            elif u.kind == "punct" and u.text == "," and d == 0:
+                break
+            z += 1
+        body_txt = text_of(src, toks, body_start, z)
+        ln = line_of(src, toks[k].start)
+        ed.add(toks[k].start, toks[z - 1].end, f"{newhead} {{ {body_txt} }}", "R4", f"{S.rel}:{ln} contract on closure `{anchor}` (body verbatim)")
     # ------------- loop directives: invariants and R6 desugaring -----------------------------
     for n, spec in opts.get("loops", {}).items():
         if n < 1 or n > len(loops):
@@ -655,8 +679,27 @@ def emit_type(root, d):
     return text, meta
 
 
+def read_with_includes(path, depth=0):
+    """`//@@ include <template> until <<marker>>` splices another template's text (up to the line
+    that equals the marker) - U5 re-verifies U1's items and builds on their contracts"""
+    if depth > 3:
+        raise ExtractError("include depth")
+    out = []
+    for ln in open(path, encoding="utf-8").read().split("\n"):
+        m = re.match(r"\s*//@@ include (\S+)(?: until <<(.*)>>)?\s*$", ln)
+        if not m:
+            out.append(ln)
+            continue
+        inc = os.path.join(os.path.dirname(path), m.group(1))
+        for l2 in read_with_includes(inc, depth + 1):
+            if m.group(2) is not None and l2.strip() == m.group(2).strip():
+                break
+            out.append(l2)
+    return out
+
+
 def parse_template(path):
-    lines = open(path, encoding="utf-8").read().split("\n")
+    lines = read_with_includes(path)
     out = []   # list of ("text", str) | ("fn", dict) | ("type", dict)
     i = 0
     cur = None
@@ -703,6 +746,11 @@ def parse_template(path):
                 cur["rename"] = cmd[7:].strip()
             elif cmd.startswith("f64 "):
                 cur["f64"].append(cmd[4:].strip())
+            elif cmd.startswith("closure_spec "):
+                m = re.match(r"closure_spec\s+<<(.*?)>>\s*==>\s*<<(.*)>>\s*$", cmd)
+                if not m:
+                    raise ExtractError(f"{path}:{i+1}: bad closure_spec")
+                cur.setdefault("closures", []).append((m.group(1), m.group(2)))
             elif cmd.startswith("hsubst "):
                 m = re.match(r"hsubst\s+<<(.*?)>>\s*==>\s*<<(.*)>>\s*$", cmd)
                 if not m:
